@@ -1,6 +1,9 @@
 (* Driver for the extracted Sylt reference interpreter.
    Case line:  <resolved S-expression (tools/resolved_io.py)>
-   Output:     SEM <final> <n> <hex line>...   final = done | assert | unreachable:<hex> | stuck:<hex> | fuel | unsup:<hex> | READFAIL *)
+   Output:     SEM <final> <n> <hex line>...   final = done | assert | unreachable:<hex> | stuck:<hex> | fuel | unsup:<hex> | timeout | READFAIL
+   The interpreter's fuel bounds the DEPTH of the evaluation, not the number of steps: a program without a base case
+   and two recursive calls would run for ever.  A case that takes more than 10 s of wall time is reported as
+   `SEM timeout 0` (treated like `fuel`: the program is skipped, never counted as agreement). *)
 open Semmodel
 
 let rec nat_of_int n = if n = 0 then O else S (nat_of_int (n - 1))
@@ -11,7 +14,10 @@ let hex_of_string s =
     String.iter (fun c -> Buffer.add_string b (Printf.sprintf "%02x" (Char.code c))) s;
     Buffer.contents b end
 
+exception Timeout
+
 let () =
+  Sys.set_signal Sys.sigalrm (Sys.Signal_handle (fun _ -> raise Timeout));
   let fuel = nat_of_int (int_of_string Sys.argv.(1)) in
   let ic = open_in Sys.argv.(2) in
   (try
@@ -19,7 +25,8 @@ let () =
       let line = input_line ic in
       (try
         let r = Rast_reader.read_resolved line in
-        let res = run fuel r in
+        ignore (Unix.alarm 10);
+        let res = (try let x = run fuel r in ignore (Unix.alarm 0); x with Timeout -> raise Timeout) in
         let fin = match res.r_final with
           | ODone -> "done" | OAssert -> "assert"
           | OUnreachable m -> "unreachable:" ^ hex_of_string (string_of_chars m)
@@ -28,7 +35,8 @@ let () =
           | OUnsup m -> "unsup:" ^ hex_of_string (string_of_chars m) in
         let lines = List.map (fun l -> hex_of_string (string_of_chars l)) res.r_trace in
         print_endline (String.concat " " ("SEM" :: fin :: string_of_int (List.length lines) :: lines))
-      with Failure m -> print_endline ("SEM READFAIL " ^ m))
+      with Failure m -> ignore (Unix.alarm 0); print_endline ("SEM READFAIL " ^ m)
+         | Timeout -> print_endline "SEM timeout 0")
     done
   with End_of_file -> ());
   close_in ic
